@@ -6,6 +6,10 @@
 (*   "c01"   clean(w) <=> w in L(G)                                         *)
 (*   "c03"   act events = post-order of the derivation tree (sentences)    *)
 (*   "c16"   act+bounds events = tree events with spans (sentences)        *)
+(*   "c16e"  every recorded _onBounds call carries the first and last leaf  *)
+(*           of the value it is given, and every action whose value has a  *)
+(*           leaf is followed by one (any run, error recovery included;    *)
+(*           an Error leaf stands for the token it blames)                 *)
 (*   "c09"   (a) terminated, no panic  (b) no silent accept                *)
 (*           (c) first Error delivered blames the first offending token    *)
 (*           (d) accepted => consumed symbols form a sentence of G_E       *)
@@ -48,6 +52,15 @@ Consumes(y, k, w, c, gap) ==
        /\ Consumes(y, k + 1, w, idx + 1, FALSE)
 
 -----------------------------------------------------------------------------
+\* C16 on any run: local, independent of the model and of the derivation tree
+BoundsLocal(evs) ==
+  LET acts == ActsOf(evs) IN
+  \A k \in DOMAIN evs :
+    /\ evs[k].e = "bounds" =>
+         LET y == YieldV(acts, evs[k].v) IN y # <<>> /\ evs[k].i = y[1][2] /\ evs[k].end = y[Len(y)][2]
+    /\ (evs[k].e = "act" /\ YieldL(acts, evs[k].args) # <<>>) =>
+         k < Len(evs) /\ evs[k + 1].e = "bounds" /\ evs[k + 1].v.k = "n" /\ evs[k + 1].v.i = evs[k].ret
+
 Clean == R.ok /\ R.errs = <<>> /\ R.panic = "" /\ ~R.budget
 
 Check ==
@@ -63,6 +76,7 @@ Check ==
              THEN DedupB(Filter(R.events, {"act", "bounds"})) = DedupB(exp.ev) ELSE TRUE
       c16n == IF "c16n" \in Chk /\ R.full       \* parser type without _onBounds: never called
               THEN Filter(R.events, {"bounds"}) = <<>> ELSE TRUE
+      c16e == IF "c16e" \in Chk /\ R.full /\ R.panic = "" /\ ~R.budget THEN BoundsLocal(R.events) ELSE TRUE
       amb == exp.amb
       c09a == IF "c09" \in Chk THEN R.panic = "" /\ ~R.budget ELSE TRUE
       c09b == IF "c09" \in Chk /\ ~R.budget /\ R.panic = "" THEN (~inl => (~R.ok \/ R.errs # <<>>)) ELSE TRUE
@@ -76,7 +90,7 @@ Check ==
       c09c == IF fb = -2 THEN TRUE ELSE R.errs[1] = fb
       c09d == TRUE   \* evaluated by ParserTrace on the validated model stack
       bad == (IF c01 THEN {} ELSE {"c01"}) \cup (IF c03 THEN {} ELSE {"c03"}) \cup (IF c16 THEN {} ELSE {"c16"})
-             \cup (IF c16n THEN {} ELSE {"c16n"}) \cup (IF amb THEN {"amb"} ELSE {})
+             \cup (IF c16n THEN {} ELSE {"c16n"}) \cup (IF c16e THEN {} ELSE {"c16e"}) \cup (IF amb THEN {"amb"} ELSE {})
              \cup (IF c09a THEN {} ELSE {"c09a"}) \cup (IF c09b THEN {} ELSE {"c09b"})
              \cup (IF c09c THEN {} ELSE {"c09c"}) \cup (IF c09d THEN {} ELSE {"c09d"})
   IN IF bad = {} THEN TRUE
